@@ -8,6 +8,7 @@ import (
 	"bytes"
 	"math"
 	"math/rand"
+	"os"
 	"runtime"
 	"sort"
 	"strconv"
@@ -423,6 +424,43 @@ func stressScenarios(rng *rand.Rand) map[string]func() int {
 			bp.Render(img, scene)
 			return 0
 		},
+		// several goroutines each build their own scene around one shared, finished joined collider; every
+		// scene must be the one a single caller would have built, and the shared member must stay as it was
+		"joined-shared-child": func() int {
+			bad := 0
+			for _, k := range []int{3, 5, 6, 7} {
+				var members []model3d.Collider
+				for i := 0; i < k; i++ {
+					members = append(members, &model3d.Sphere{Center: model3d.XYZ(float64(i)*3-9, 0, 0), Radius: 1})
+				}
+				// corner spheres fix the bounds, so that everything added later lies inside them
+				members[0] = &model3d.Sphere{Center: model3d.XYZ(-12, -12, -12), Radius: 1}
+				members[1] = &model3d.Sphere{Center: model3d.XYZ(12, 12, 12), Radius: 1}
+				room := model3d.NewJoinedCollider(members)
+				extras := make([]model3d.Collider, 6)
+				for i := range extras {
+					extras[i] = &model3d.Sphere{Center: model3d.XYZ(1.5, float64(i)*3-7, 5), Radius: 1}
+				}
+				scenes := make([]*model3d.JoinedCollider, len(extras))
+				parallelDo(len(extras), func(i int) {
+					scenes[i] = model3d.NewJoinedCollider([]model3d.Collider{room, extras[i]})
+				})
+				var mu sync.Mutex
+				parallelDo(len(extras), func(i int) {
+					for j := range extras {
+						// a ray down onto extra j hits something only in scene j
+						ray := &model3d.Ray{Origin: model3d.XYZ(1.5, float64(j)*3-7, 20), Direction: model3d.Z(-1)}
+						n := scenes[i].RayCollisions(ray, nil)
+						if (n == 2) != (i == j) || (n != 0 && n != 2) {
+							mu.Lock()
+							bad++
+							mu.Unlock()
+						}
+					}
+				})
+			}
+			return bad
+		},
 		// one renderer of each kind used by several goroutines at once (each with its own image), and
 		// two path tracers of different depth in flight together; the ray caster has no randomness
 		// and must paint the same picture as alone
@@ -577,13 +615,24 @@ func init() {
 			names = append(names, n)
 		}
 		sort.Strings(names)
-		for _, p := range []int{2, 4, 16} {
+		// (one processor too: the internally parallel routines size their pools and pipelines by it)
+		for _, p := range []int{2, 4, 16, 1} {
 			old := runtime.GOMAXPROCS(p)
 			for _, n := range names {
 				r := scenarioResult{Name: n, Procs: p}
 				t0 := time.Now()
-				r.Panic = protect(func() { r.Mismatches = scen[n]() })
+				mism := 0
+				outcome, pan := withDeadline(240*time.Second, func() { mism = scen[n]() })
+				r.Panic = pan
 				r.Millis = int(time.Since(t0).Milliseconds())
+				if outcome == "hang" {
+					// the runaway scenario keeps its goroutines: report what there is and stop here
+					r.Panic = "did not terminate within 240 s"
+					results = append(results, r)
+					writeJSONFile(a.str("out", "stress.json"), results)
+					os.Exit(0)
+				}
+				r.Mismatches = mism
 				results = append(results, r)
 			}
 			runtime.GOMAXPROCS(old)
